@@ -735,6 +735,7 @@ pub struct Flags {
     pub http_follower: bool,
     pub refused_import_over_stored: bool,
     pub via_client: bool,
+    pub registration_amended: bool,
 }
 
 impl Default for Flags {
@@ -760,6 +761,7 @@ impl Default for Flags {
             http_follower: false,
             refused_import_over_stored: false,
             via_client: false,
+            registration_amended: false,
         }
     }
 }
@@ -2159,10 +2161,13 @@ impl Interp {
                     hash,
                 } => {
                     let ev = self.model.pending_evictable();
+                    // (registration frames included: re-importing one with other meta keeps the
+                    // context registered; their ttl stays what it is)
                     let live: Vec<FrameSpec> = self
                         .known
                         .iter()
-                        .filter(|k| k.spec.topic != "xs.context" && !ev.contains(&k.id))
+                        .filter(|k| !ev.contains(&k.id))
+                        .filter(|k| k.spec.topic != "xs.context" || (k.spec.ctx == ZERO && matches!(k.spec.ttl, None | Some(WTtl::Forever))))
                         .filter(|k| {
                             self.model
                                 .frames
@@ -2175,6 +2180,12 @@ impl Interp {
                     if let Some(i) = pick(*target, live.len()) {
                         let mut spec = live[i].clone();
                         spec.meta = meta.clone();
+                        if spec.topic == "xs.context" {
+                            self.flags.registration_amended = true;
+                            spec.ttl = Some(WTtl::Forever);
+                            self.do_import(spec)?;
+                            return Ok(());
+                        }
                         spec.ttl = ttl.clone();
                         spec.hash = if *hash {
                             Some(sha256_integrity(&spec.id.unwrap().to_be_bytes()))
@@ -2511,6 +2522,7 @@ pub fn run_history(case: &HistCase) -> Result<(CaseInfo, Flags), Fail> {
         (fl.http_follower, "http-follow-stream"),
         (fl.refused_import_over_stored, "refused-import-over-stored-id"),
         (fl.via_client, "through-xs-client-library"),
+        (fl.registration_amended, "registration-frame-re-imported-with-other-meta"),
         (it.model.fuzzy_checks > 0, "had-three-valued-check"),
     ] {
         if on {
